@@ -759,7 +759,7 @@ fn md_table_names(path: &str) -> Vec<String> {
                 let cells: Vec<&str> = l.split('|').collect();
                 if cells.len() >= 3 {
                     let c = cells[1].trim();
-                    if !c.is_empty() && c.chars().all(|ch| ch.is_ascii_alphanumeric() || ch == '_') && c.contains('_') {
+                    if !c.is_empty() && c.chars().all(|ch| ch.is_ascii_lowercase() || ch.is_ascii_digit() || ch == '_') {
                         out.push(c.to_string());
                     }
                 }
